@@ -82,6 +82,20 @@ type harnessRun struct {
 	cross      map[string]interface{}
 }
 
+// engineAlsoFails: the engine reported the same assertion as violated in this harness (a listed known
+// finding on the witness path): the native failure is an agreement, not a disagreement.
+func engineAlsoFails(r *harnessRun, label string) bool {
+	if r.out == nil {
+		return false
+	}
+	for _, v := range r.out.Result.Violations {
+		if v.Label == label {
+			return true
+		}
+	}
+	return false
+}
+
 type replayOutcome struct {
 	File       string
 	Kind       string // witness | counterexample
@@ -396,7 +410,7 @@ func cmdCheck(args []string) {
 			ro := replayOutcome{File: f, Kind: "witness", Label: lbl}
 			if o.err != "" {
 				inconclusive = append(inconclusive, fmt.Sprintf("%s: witness replay failed to run: %s", r.spec.Func, o.err))
-			} else if o.assertFail != "" || o.panicked || !o.reached[lbl] {
+			} else if (o.assertFail != "" && !engineAlsoFails(r, o.assertFail)) || o.panicked || !o.reached[lbl] {
 				ro.Detail = fmt.Sprintf("native run disagrees with engine on witness %q: assertFail=%q panicked=%v reached=%v\n%s", lbl, o.assertFail, o.panicked, o.reached[lbl], tail(o.output, 800))
 				inconclusive = append(inconclusive, r.spec.Func+": "+ro.Detail)
 			} else {
